@@ -449,6 +449,13 @@ class PoolWorldM(object):
                     self.viol.append(('pool-size-exceeded', '%d connections open to %r, pool_size %r' % (len(net.open), address, cfg['pool_size'])))
                 p = ScriptedPeer(server, {}, pipelining=True)
                 peers.append(p)
+                orig_reply = p._reply
+
+                def slow(stage, base, text, multi=None, p=p, orig_reply=orig_reply):
+                    if stage == 'mail':
+                        w.env_wait('peer%d-answers-mail' % peers.index(p))      # transactions take time: attempts overlap
+                    return orig_reply(stage, base, text, multi)
+                p._reply = slow
                 gevent.spawn(p.run)
                 return client
             relay = mx.MxSmtpRelay(pool_size=cfg['pool_size'], socket_creator=creator, ehlo_as='relay.test', context=VContext(),
@@ -484,9 +491,10 @@ class PoolWorldM(object):
                 if r['started'] and r['outcome'] is None:
                     self.viol.append(('caller-blocked-forever', 'attempt() of %s never returned' % r['sender']))
                 elif r['outcome'] is not None:
+                    # (a slow MAIL answer may legitimately run into the command timeout: only a non-relay exception is wrong here)
                     per, whole = classify(r['outcome'], r['env'])
-                    if not all(v == 'delivered' for v in per.values()):
-                        self.viol.append(('fault-free-attempt-failed', 'no fault was injected, yet attempt() of %s ended as %s' % (r['sender'], whole)))
+                    if whole.startswith('raised:other'):
+                        self.viol.append(('non-relay-exception', 'attempt() of %s ended as %s' % (r['sender'], whole)))
             self.errors = w.errors()
         return (tuple(repr(r['outcome'])[:60] for r in callers), len(peers), tuple(sorted(set(v[0] for v in self.viol))))
 
